@@ -115,10 +115,17 @@ func (s *ftpService) SetChannel(c pushers.Channel) {
 
 func (s *ftpService) Handle(ctx context.Context, conn net.Conn) error {
 
-	ftpConn := s.server.newConn(conn, s.driver, s.recv)
+	// the command log channel belongs to this connection: events carry the
+	// address and session id of the connection the command arrived on
+	recv := make(chan string)
+	done := make(chan struct{})
+
+	ftpConn := s.server.newConn(conn, s.driver, recv)
 
 	go func() {
-		for msg := range s.recv {
+		defer close(done)
+
+		for msg := range recv {
 			s.c.Send(event.New(
 				services.EventOptions,
 				event.Category("ftp"),
@@ -131,6 +138,9 @@ func (s *ftpService) Handle(ctx context.Context, conn net.Conn) error {
 	}()
 
 	ftpConn.Serve()
+
+	close(recv)
+	<-done
 
 	return nil
 }
